@@ -2,8 +2,8 @@ package main
 
 import (
 	"fmt"
-	"strings"
 	str "strconv"
+	"strings"
 )
 
 type N int
@@ -25,21 +25,21 @@ type (
 		Val V
 	}
 	List[T any] []T
-	A = []string
+	A           = []string
 )
 
 const (
 	c0 = iota
 	c1
-	c2 = "x"
+	c2     = "x"
 	c3, c4 = 1 << iota, iota * 2
 )
 
 var (
-	g1 int = 3
-	g2, g3 = "s", 2.5
-	g4 []int
-	g5 = map[string]int{"a": 1, "b": 2}
+	g1     int = 3
+	g2, g3     = "s", 2.5
+	g4     []int
+	g5     = map[string]int{"a": 1, "b": 2}
 )
 
 func (s S) M() int { return s.a + int(s.N) }
@@ -47,7 +47,6 @@ func (s S) M() int { return s.a + int(s.N) }
 func (s *S) Set(v int) { s.a = v }
 
 func (n N) M() int { return int(n) * 2 }
-
 
 func Map[T, U any](xs []T, f func(T) U) []U {
 	var out []U
